@@ -76,7 +76,7 @@ macro_rules
        (simp [J, JF, pOK, pAtt, isS1, imp, fire, fireC, mk, crash, W.pre, outIf, connectSends, killFinishC, peRetC, adv, srvStep,
           List.foldl_append, *] at * <;>
         (first | done |
-          (cases $p:ident <;> cases hcs : Core.cs $d <;> cases hss : Core.ss $d <;> simp_all [adv, srvStep, pAtt, isS1] <;>
+          (cases $p:ident <;> cases hcs : Core.cs $d <;> cases hss : Core.ss $d <;> cases hrt : Core.reqTrailers $d <;> cases hrb : Core.reqBody $d <;> simp_all [adv, srvStep, pAtt, isS1] <;>
             (try (repeat' split) <;> simp_all [adv, srvStep, pAtt, isS1]))))))
 
 set_option maxHeartbeats 8000000 in
